@@ -35,6 +35,11 @@ def gen_cases(ctx):
             for cs in ([1], [2, 0]):
                 mk(3, [{"g": "op", "kind": "H", "params": [], "ts": [q], "cs": []} for q in range(3)] + [{"g": "op", "kind": kind, "params": [float2bits(ang)], "ts": [[q for q in range(3) if q not in cs][0]], "cs": cs}])
             mk(2, [{"g": "param", "kind": kind, "vals": [float2bits(ang)] * 3, "ts": [0], "cs": [1]}])
+    # custom unitaries of special shape, uncontrolled: anti-diagonal (X, Y and their phase multiples), diagonal, real - every branch of the
+    # exporter's angle extraction
+    from ..gatecases import structured_unitaries
+    for params in structured_unitaries(rng):
+        mk(2, [{"g": "op", "kind": "H", "params": [], "ts": [q], "cs": []} for q in range(2)] + [{"g": "op", "kind": "U2", "params": params, "ts": [rng.randrange(2)], "cs": []}])
     # measurement groups in each basis at any position, with gates before and after
     for b in ("C", "X", "Y", "U"):
         for k in range(10 if b != "U" else 2 * len(us)):
